@@ -539,3 +539,175 @@ class VerletEndPoint(_VerletBase):
 
 
 CONTRACTS += [VerletIntegrate, VerletUpdateNodes, VerletEndPoint]
+
+
+# ------------------------------------------------------------------------------------------ Runge-Kutta sweepers
+RKF = 'Runge_Kutta.py'
+
+
+class NpAllclose:
+    """numpy as seen by Runge_Kutta.py: `allclose` (only used by ButcherTableau.globally_stiffly_accurate) answers the flag the
+    instance fixes; when the flag is True the harness makes the last row of the tableau equal to the weights"""
+
+    def __init__(self, flag):
+        self.flag = flag
+
+    def __getattr__(self, n):
+        import numpy
+
+        return getattr(numpy, n)
+
+    def allclose(self, a, b, *args, **kw):
+        return self.flag
+
+
+class _RKBase(Contract):
+    prop = 'C02'
+    label = 'instance-proved'
+    native = False
+    stubs = _SweepBase.stubs
+
+    RK_CLASSES = {('plain', 2): 'CrankNicolson', ('plain', 4): 'RK4', ('embedded', 2): 'Heun_Euler', ('embedded', 4): 'DIRK43', ('plain', 1): 'BackwardEuler'}
+
+    def rk_instances(self, tier):
+        out = []
+        for (kind, M), cname in self.RK_CLASSES.items():
+            for gsa in (False, True):
+                out.append(dict(cls=cname, M=M, embedded=(kind == 'embedded'), gsa=gsa))
+        if tier != 'quick':
+            out += [dict(cls='Cash_Karp', M=6, embedded=True, gsa=g) for g in (False, True)]
+        return out
+
+    def mk_rk_level(self, inst, mk):
+        import importlib
+        import numpy as onp
+
+        mod = importlib.import_module('pySDC.implementations.sweeper_classes.Runge_Kutta')
+        cls = getattr(mod, inst['cls'])
+        mod.np = onp  # construction with real numpy
+        from vc.ghost.problem import RKAbstractProblem
+
+        L = make_level(cls, inst['M'], mk, fill=False, sweeper_params={}, problem_class=RKAbstractProblem)
+        sw, M = L.sweep, inst['M']
+        assert sw.coll.num_nodes == M and cls.is_embedded() == inst['embedded']
+        mod.np = NpAllclose(inst['gsa'])
+        coll = sw.coll
+        coll.Qmat = mk.matrix('L.A', M + 1, M + 1, lower)
+        coll.nodes = onp.array([0] + [mk.real(f'L.c_{i}') for i in range(M)], dtype=object)
+        if inst['embedded']:
+            w1 = mk.vector('L.b', M)
+            w2 = mk.vector('L.bhat', M)
+            coll.weights = onp.array([list(w1), list(w2)], dtype=object)
+            wmain = w1
+        else:
+            coll.weights = mk.vector('L.b', M)
+            wmain = coll.weights
+        if inst['gsa']:
+            for j in range(M):
+                coll.Qmat[M, j + 1] = wmain[j]
+        sw.QI = coll.Qmat
+        L.u[0] = mk.vec('L.u0')
+        L.status.sweep = 1
+        return L
+
+
+class RKUpdateNodes(_RKBase):
+    """stage by stage: U_m - dt*A[m,m]*F(U_m, t + c_m dt) = u0 + dt*sum_{j<m} A[m,j] F(U_j) (direct assignment iff A[m,m] = 0),
+    stage right-hand sides evaluated at the stage times"""
+
+    name = 'RungeKutta.update_nodes'
+    target = (SW + RKF, 'RungeKutta.update_nodes')
+
+    def instances(self, tier):
+        return self.rk_instances(tier)
+
+    def build(self, inst, mk):
+        L = self.mk_rk_level(inst, mk)
+        L.sweep.predict()
+        st = State(L=L, M=inst['M'], inst=inst, u0=cp(L.u[0]), call=L.sweep.update_nodes)
+        return st
+
+    def post(self, st, old, result, exc):
+        L, M, sw, P = st.L, st.M, st.L.sweep, st.L.prob
+        dt, A, c = L.dt, sw.coll.Qmat, sw.coll.nodes
+        yield 'returns_normally', exc is None
+        if exc is not None:
+            return
+        for m in range(M):
+            tm = L.time + dt * c[m + 1]
+            rhs = cp(st.u0) + vsum(dt * A[m + 1, j] * L.f[j] for j in range(1, m + 1))
+            rec = P.find_solve(L.u[m + 1])
+            if rec is not None:
+                yield f'stage{m + 1}:solve_rhs', veq(rec.rhs, rhs)
+                yield f'stage{m + 1}:solve_factor', seq(rec.factor, dt * A[m + 1, m + 1])
+                yield f'stage{m + 1}:solve_time', seq(rec.t, tm)
+            else:
+                yield f'stage{m + 1}:explicit_value', veq(L.u[m + 1], rhs)
+                yield f'stage{m + 1}:explicit_only_if_diagonal_zero', seq(A[m + 1, m + 1], 0)
+            last_skipped = (m == M - 1) and st.inst['gsa'] and not st.inst['embedded']
+            if last_skipped:
+                yield f'f{m + 1}:not_needed_for_stiffly_accurate_last_stage', veq(L.f[m + 1], 0)
+            else:
+                er = P.find_eval(L.f[m + 1])
+                yield f'f{m + 1}:is_eval_f_at_stage_value_and_time', er is not None and bool(veq(er.u, L.u[m + 1])) is True and bool(seq(er.t, tm)) is True
+        yield 'status.updated', L.status.updated is True
+        yield 'u0_untouched', veq(L.u[0], st.u0)
+
+    def canary(self, st, old, result, exc):
+        L, M = st.L, st.M
+        if M > 1:
+            P = L.prob
+            rec = P.find_solve(L.u[M])
+            val = rec.rhs if rec is not None else L.u[M]
+            yield 'canary:last_stage_ignores_previous_stages', veq(val, st.u0)
+        else:
+            yield 'canary:stage_is_u0_plus_f', veq(L.u[1], st.u0 + L.dt * L.f[1])
+
+
+class RKEndPoint(_RKBase):
+    name = 'RungeKutta.compute_end_point'
+    target = (SW + RKF, 'RungeKutta.compute_end_point')
+
+    def instances(self, tier):
+        return self.rk_instances(tier) + [dict(cls='RK4', M=4, embedded=False, gsa=False, fresh=True)]
+
+    def build(self, inst, mk):
+        L = self.mk_rk_level(inst, mk)
+        M = inst['M']
+        if not inst.get('fresh'):
+            for m in range(1, M + 1):
+                L.u[m] = mk.vec(f'L.U{m}')
+                L.f[m] = mk.vec(f'L.K{m}', 'f')
+        st = State(L=L, M=M, inst=inst, u0=cp(L.u[0]), call=L.sweep.compute_end_point)
+        st.old_u = [cp(u) for u in L.u]
+        st.old_f = [cp(f) for f in L.f]
+        return st
+
+    def post(self, st, old, result, exc):
+        L, M, sw, inst = st.L, st.M, st.L.sweep, st.inst
+        dt = L.dt
+        yield 'returns_normally', exc is None
+        if exc is not None:
+            return
+        if inst.get('fresh'):
+            yield 'no_stages_yet:end_value_is_u0', veq(L.uend, st.u0) and L.uend is not L.u[0]
+            return
+        W = sw.coll.weights
+        b = W[0] if inst['embedded'] else W
+        if inst['gsa']:
+            yield 'stiffly_accurate:end_value_is_last_stage', veq(L.uend, st.old_u[M])
+        else:
+            yield 'end_value_is_u0_plus_weighted_stages', veq(L.uend, cp(st.u0) + vsum(dt * b[k] * st.old_f[k + 1] for k in range(M)))
+        if inst['embedded']:
+            yield 'embedded_solution_uses_second_weights', veq(sw.u_secondary, cp(st.u0) + vsum(dt * W[1][k] * st.old_f[k + 1] for k in range(M)))
+        yield 'end_value_is_a_new_object', all(L.uend is not u for u in L.u)
+        yield 'stages_untouched', And(*[veq(L.u[m], st.old_u[m]) for m in range(M + 1)])
+
+    def canary(self, st, old, result, exc):
+        if st.inst.get('fresh'):
+            yield 'canary:end_value_zero', veq(st.L.uend, 0)
+        else:
+            yield 'canary:end_value_is_u0', veq(st.L.uend, st.u0)
+
+
+CONTRACTS += [RKUpdateNodes, RKEndPoint]
